@@ -73,7 +73,12 @@ theorem base_fill (k : FillKind) (key : Bytes) (v : Val) (r : RangeResp) (hp : P
     simp only [fill, base, Fsm.sizeOf]
     omega
 
-theorem maxRangeSize_val : maxRangeSize = 4193280 := rfl
+/-- the relations between the source's current constants that the argument needs - not their values: the
+chunk budget leaves more than 538 bytes below the transport limit (13 for the encoding of the pair that
+crossed the cut, 13 for `more` / `count`, 512 for the response header), and one pair of maximal key and
+value fits into an empty chunk -/
+theorem budget_slack : maxRangeSize + 538 < Extracted.defaultMaxGRPCSize := by decide
+theorem one_pair_fits : 1024 + 2097152 < maxRangeSize := by decide
 
 /-- **every chunk fits**: for every fill kind, limit, position and response under construction, all
 chunks the loop emits are smaller than the gRPC message limit by at least 512 bytes (room for the
@@ -81,11 +86,11 @@ response header), provided the pairs respect the size limits -/
 theorem iterLoop_sizes (k : FillKind) (limit : Int) (pairs : List (Bytes × Val)) (i : Nat) (resp : RangeResp)
     (hb : Building resp) (hp : ∀ p ∈ pairs, PairOK p) :
     ∀ c ∈ iterLoop k limit pairs i resp, c.sizeVT + 512 < Extracted.defaultMaxGRPCSize := by
-  have hmax : Extracted.defaultMaxGRPCSize = 4194304 := rfl
   have emit : ∀ r : RangeResp, base r < maxRangeSize + 13 → r.sizeVT + 512 < Extracted.defaultMaxGRPCSize := by
     intro r hr
     have := sizeVT_le r
-    rw [hmax]; rw [maxRangeSize_val] at hr; omega
+    have := budget_slack
+    omega
   induction pairs generalizing i resp with
   | nil =>
     intro c hc
@@ -112,7 +117,7 @@ theorem iterLoop_sizes (k : FillKind) (limit : Int) (pairs : List (Bytes × Val)
           refine ⟨by rw [h2], ?_⟩
           have hsz : Fsm.sizeOf k key v ≤ key.length + v.size := by cases k <;> simp [Fsm.sizeOf]
           have : base ({} : RangeResp) = 0 := rfl
-          rw [maxRangeSize_val]
+          have := one_pair_fits
           have := hpk.1; have := hpk.2
           simp only at *
           omega
